@@ -15,7 +15,7 @@ func TestProbe(t *testing.T) {
 	if err != nil {
 		t.Fatal(err)
 	}
-	re := regexp.MustCompile(`publishTime="[^"]*"|type="(static|dynamic)"|mediaPresentationDuration="[^"]*"|<Period[^>]*>|startNumber="[^"]*"`)
+	re := regexp.MustCompile(`<AdaptationSet[^>]*>|publishTime="[^"]*"`)
 	for _, u := range strings.Split(os.Getenv("PROBE_URLS"), " ") {
 		if u == "" {
 			continue
